@@ -91,14 +91,14 @@ type vkWorld struct {
 	forced atomic.Bool // park in user code
 	stress bool
 
-	mu       sync.Mutex
-	threads  map[int64]*vkThread
-	byID     []*vkThread
-	watcher  *vkThread // pseudo thread: a goroutine godi started itself (the cancellation watcher of S)
-	nextInst int
-	created  []int
-	closeLog []int
-	closeCnt map[int]int
+	mu        sync.Mutex
+	threads   map[int64]*vkThread
+	byID      []*vkThread
+	watcher   *vkThread // pseudo thread: a goroutine godi started itself (the cancellation watcher of S)
+	nextInst  int
+	created   []int
+	closeLog  []int
+	closeCnt  map[int]int
 	failEvery int64 // stress: every n-th constructor call fails
 	calls     atomic.Int64
 
